@@ -241,7 +241,10 @@ class LocMap:
                 if labels.dtype != key.dtype:
                     labels_ref = labels.astype(key.dtype)
                     # let Boolean key advance to next branch
-                    key = reduce(operator_mod.or_, (labels_ref == k for k in key))
+                    key = reduce(operator_mod.or_,
+                            (labels_ref == k for k in key),
+                            np.full(len(labels), False), # an empty key selects nothing
+                            )
 
             if is_array and key.dtype == DTYPE_BOOL:
                 if offset_apply:
